@@ -594,7 +594,7 @@ func init() {
 		ID:    "C06",
 		Level: "model_checking",
 		Rule: "full matrix: every ordered pair of pool values (every variant type with boundaries: 0, +-1, width limits, 2^53+1, +-0, NaN, +-Inf, empty/non-ASCII strings, time spans, date-times in two zones, arrays incl. empty and nested, objects) x 19 binary operators + every value x 2 unary operators, under both managers, " +
-			"against a reference operator table (Null rules, second operand converted by the manager under test, host arithmetic of the first operand's type, error required for division/modulo by zero, negative shifts and out-of-range indexes, true exponentiation); plus the relational laws on every ordered pair and operands unchanged; plus, for every cell, the same call on a long-lived manager after the same operand objects were used once and then given other values of their type in place (must equal what fresh objects give); non-trivial = cases where the reference defines the outcome",
+			"against a reference operator table (Null rules, second operand converted by the manager under test, host arithmetic of the first operand's type, error required for division/modulo by zero, negative shifts and out-of-range indexes, true exponentiation); plus the relational laws on every ordered pair and operands unchanged; plus, for every cell, the same call on a long-lived manager after the same operand objects were used once and then given other values of their type in place (must equal what fresh objects give), and the same call repeated after the caller overwrote the returned variant (results, operands and variants.Empty must be unaffected); non-trivial = cases where the reference defines the outcome",
 		Assume: []string{"Convert of the manager under test is used to obtain the converted second operand (C07 decides Convert itself)", "operations on first-operand types outside the statement's list are only required not to crash and to return exactly one of result/error", "shift counts >= 64: host result or error"},
 		Spaces: func(tier string) []fw.Space {
 			pool := valuePool(tier)
@@ -617,6 +617,13 @@ func init() {
 						op := c06Binary[int(j)%len(c06Binary)]
 						j /= int64(len(c06Binary))
 						return fmt.Sprintf("%s %s on a reused manager with operand objects first holding (%s, %s) then changed in place", mgrName(i%2 == 1), op, pool[int(j)/len(pool)].label, pool[int(j)%len(pool)].label)
+					}},
+				{Name: "result-isolation", N: n * n * int64(len(c06Binary)) * 2, Run: func(c *fw.Ctx, i int64) { c06ResultIsolation(c, pool, i, -1) },
+					Repr: func(i int64) string {
+						j := i / 2
+						op := c06Binary[int(j)%len(c06Binary)]
+						j /= int64(len(c06Binary))
+						return fmt.Sprintf("%s %s(%s, %s), result overwritten by the caller, same call again", mgrName(i%2 == 1), op, pool[int(j)/len(pool)].label, pool[int(j)%len(pool)].label)
 					}},
 				{Name: "laws", N: n * n * 2, Run: func(c *fw.Ctx, i int64) { c06Laws(c, pool, i) },
 					Repr: func(i int64) string {
@@ -700,5 +707,73 @@ func c06Reuse(c *fw.Ctx, pool []poolVal, i int64) {
 	}
 	if got != want {
 		c.Violation("stale-result-with-reused-operands:"+op, "%s %s(%s, %s) on a reused manager after the same operand objects held (%s, %s): %s; fresh objects give %s", mgrName(safe), op, pa2.label, pb2.label, pool[ia].label, pool[ib].label, got, want)
+	}
+}
+
+// ---- result isolation: a returned variant is the caller's; writing into it must not change
+// later results or shared library state (differential against a second evaluation on fresh operands)
+
+func c06ResultIsolation(c *fw.Ctx, pool []poolVal, i int64, convertTo int) {
+	safe := i%2 == 1
+	i /= 2
+	var op string
+	if convertTo < 0 {
+		op = c06Binary[int(i)%len(c06Binary)]
+		i /= int64(len(c06Binary))
+	}
+	ia, ib := int(i)/len(pool), int(i)%len(pool)
+	m := sharedManager(safe)
+	call := func() (*variants.Variant, *variants.Variant, *variants.Variant, string) {
+		a, b := pool[ia].mk(), pool[ib].mk()
+		var r *variants.Variant
+		var err error
+		pv := fw.Try(func() {
+			if convertTo >= 0 {
+				r, err = m.Convert(a, allTypes[convertTo])
+			} else {
+				r, err = callBinary(m, op, a, b)
+			}
+		})
+		return a, b, r, outcomeStr(r, err, pv)
+	}
+	a, b, r1, s1 := call()
+	if r1 == nil || r1 == a || r1 == b {
+		c.Outcome("result-is-an-operand-or-absent")
+		return
+	}
+	isElem := false
+	for _, x := range []*variants.Variant{a, b} {
+		if x.Type() == variants.Array {
+			for _, e := range x.AsArray() {
+				if e == r1 {
+					isElem = true // GetElement hands out the element itself, by design
+				}
+			}
+		}
+	}
+	if isElem {
+		c.Outcome("result-is-an-element")
+		return
+	}
+	sa, sb := variantStr(a), variantStr(b)
+	// the caller overwrites the result it was given
+	fw.Try(func() { r1.SetAsString("overwritten-by-caller") })
+	c.Eval(2)
+	c.Nontrivial()
+	desc := op
+	if convertTo >= 0 {
+		desc = "Convert to " + tn(allTypes[convertTo])
+	}
+	if variantStr(a) != sa || variantStr(b) != sb {
+		c.Violation("result-aliases-operand:"+desc, "%s %s(%s, %s): writing into the returned variant changed an operand", mgrName(safe), desc, pool[ia].label, pool[ib].label)
+	}
+	if variants.Empty == nil || variants.Empty.Type() != variants.Null {
+		c.Violation("result-aliases-shared-empty:"+desc, "%s %s(%s, %s) returned the package-level variants.Empty (writing into the result changed it to %s)", mgrName(safe), desc, pool[ia].label, pool[ib].label, variantStr(variants.Empty))
+		variants.Empty = variants.EmptyVariant()
+		return
+	}
+	_, _, _, s2 := call()
+	if s1 != s2 {
+		c.Violation("result-not-isolated:"+desc, "%s %s(%s, %s) = %s, but after the caller overwrote that result the same call gives %s", mgrName(safe), desc, pool[ia].label, pool[ib].label, s1, s2)
 	}
 }
